@@ -128,6 +128,7 @@ static void d_make_opts(d_opts_t *d, uint32_t bits) {
   d->o.create_if_missing = 1;
   d->o.paranoid_checks = (bits >> 0) & 1;
   d->o.write_buffer_size = wb[(bits >> 1) & 3];
+  if ((bits >> 17) & 1) d->o.write_buffer_size = 16 << 20; /* scripted runs with values above max_file_size: no automatic switch */
   d->o.block_size = bs[(bits >> 3) & 3];
   d->o.block_restart_interval = ri[(bits >> 5) & 3];
   d->o.max_file_size = ((bits >> 7) & 1) ? (2 << 20) : (1 << 20);
